@@ -199,6 +199,17 @@ def is_fusion_crash(ev):
     return (bool(ev.case.get('fusions')) and r.get('__exc__') == 'ValueError'
             and 'expand_alignments' in r.get('tb', '') and 'call_peptide_fusion' in r.get('tb', ''))
 
+F_NOLACRASH = 'C01-nola-expand-crash'
+
+def is_nola_crash(ev):
+    """residue of the rule-without-look-ahead crash (fixed in db08c8d for a site on the END of a node): callVariant
+    still aborts, order dependently, with IndexError in PVGNode._get_nth_rf_index reached from
+    PeptideVariantGraph.move_downstreams / expand_forward during create_cleavage_graph under a rule of class nola"""
+    r = ev.exc or {}
+    tb = r.get('tb', '')
+    return (r.get('__exc__') == 'IndexError' and '_get_nth_rf_index' in tb and 'move_downstreams' in tb
+            and 'create_cleavage_graph' in tb and ev.run['rule'] in rule_classes()['nola'])
+
 def is_fusion_align_crash(ev):
     """callVariant aborts with IndexError (TVGNode._get_nth_rf_index on a node without locations) in
     ThreeFrameTVG.align_variants / find_bridge_nodes_between while fitting the graph of a fusion transcript into
@@ -234,9 +245,14 @@ def classify(evs):
         exc_on = ev.run['exc'] != 'None'
         fl = run_flags(ev.run)
         wit_cache = {}
+        must_tx = {}
         if ev.missing and not fl:
-            # the obliged derivations of ALL missing peptides, one oracle call per transcript
+            # the obliged derivations of ALL missing peptides, one oracle call per transcript; a transcript counts for a
+            # peptide only when ITS must_set holds it (must_witnesses_of lists derivations without the novelty filter:
+            # a non-coding isoform whose REFERENCE already yields the peptide must not veto the signature that fits
+            # the transcript obliging it)
             for tx_id, x in ev.xs.items():
+                must_tx[tx_id] = set(O.U(q) for q in O.call('cv_must', x))
                 by_p = collections.defaultdict(list)
                 for q, w in O.call('cv_must_witnesses_of', [x, list(ev.missing)]):
                     by_p[O.U(q)].append(w)
@@ -271,6 +287,8 @@ def classify(evs):
                     bases = base_cache[tx_id][p]
                     xw = unlimited(x)
                 else:
+                    if tx_id in must_tx and p not in must_tx[tx_id]:
+                        continue
                     bases, xw = [p], x
                 for q in bases:
                     if tx_id in wit_cache:
@@ -359,6 +377,58 @@ def classify(evs):
                 elif lastop[k]:
                     tag = F_LASTOP
                 ev.extra[p] = tag
+    classify_nola_flicker(evs)
+
+NOLA_FLICKER_SEEDS = ('0', '1', '2', '3', '4', '5')
+
+def classify_nola_flicker(evs, seeds=NOLA_FLICKER_SEEDS):
+    """flicker form of C01-nola-adjacent-sites.  On some inputs the engine's output under a rule with an alternative
+    without look-ahead is NOT a function of the input: a join that uses exactly the allowed number of missed
+    cleavages is reported in some executions and lost in others, also when the single-residue node sits on a
+    SIBLING path of the same variant bubble (IRGWRSGSESSGYIGLRYAYR lost in one run, HSCRDGALVLSRRVISDYAMR - the
+    path through the other indel, with R|R inside - in another, none in a third).  Executable signature: rule of
+    class nola, no SECT/W2F, the peptide is still unexplained, EVERY obliged derivation of it (in the transcripts
+    obliging it) spans exactly k + 1 pieces, and the identical case executed again under len(seeds)
+    PYTHONHASHSEEDs reports the peptide at least once.  A miss that persists in every execution stays a VIOLATION."""
+    sel = []
+    for ev in evs:
+        if ev.exc or run_flags(ev.run) or ev.run['rule'] not in rule_classes()['nola']:
+            continue
+        todo = [p for p, t in ev.missing.items() if t is None]
+        if not todo:
+            continue
+        cand = []
+        k = int(ev.run['k'])
+        for p in todo:
+            ok, any_w = True, False
+            for tx_id, x in ev.xs.items():
+                if p not in set(O.U(q) for q in O.call('cv_must', x)):
+                    continue
+                ws = SG.decode_wits(O.call('cv_must_witnesses', [x, p]), ev.recs[tx_id])
+                ss = O.call_many([SG.sites_req(x, w['aas']) for w in ws]) if ws else []
+                for w, sites in zip(ws, ss):
+                    any_w = True
+                    if sum(1 for e in sites if w['a'] < e < w['b']) != k:
+                        ok = False
+            if ok and any_w:
+                cand.append(p)
+        if cand:
+            sel.append((ev, cand))
+    if not sel:
+        return
+    cases = [json.loads(json.dumps(dict(strip_case(ev.case), runs=[ev.run]))) for ev, _ in sel]
+    script = 'callvariant2' if os.path.exists(os.path.join(os.path.dirname(os.path.abspath(__file__)), '..', 'impl', 'callvariant2.py')) else 'callvariant'
+    seen = [set() for _ in sel]
+    for i, hs in enumerate(seeds):
+        res = I.run_cases(script, cases, jobs=16, tag='nolaflick%d' % i, hashseed=hs, timeout=3600)
+        for kk, r in enumerate(res):
+            r0 = r['runs'][0] if 'runs' in r else r
+            seen[kk] |= set(sq for h, sq in r0.get('fasta', []))
+    for (ev, cand), got in zip(sel, seen):
+        ev.raw['nola_flicker_reruns'] = len(seeds)
+        for p in cand:
+            if p in got:
+                ev.missing[p] = F_ADJ
 
 # ------------------------------------------------------------------ helpers for the property modules
 def strip_case(c):
